@@ -55,6 +55,10 @@ func NewMultiPrinterWriter(expression *ExpressionNode, format *Format) PrinterWr
 
 func (sp *multiPrintWriter) GetWriter(node *CandidateNode) (*bufio.Writer, error) {
 	name := ""
+	if node == nil {
+		// asked for by the printer for text that belongs to no result (what follows a front matter)
+		return nil, fmt.Errorf("the text after the front matter cannot be written when the results are split into files")
+	}
 
 	indexVariableNode := CandidateNode{Kind: ScalarNode, Tag: "!!int", Value: fmt.Sprintf("%v", sp.index)}
 
